@@ -180,6 +180,84 @@ fn scenario(pr: &Params) -> Verdict {
     e3::finish(v)
 }
 
+/// A peer leaves and a new connection announces the same identity before the socket has had a
+/// chance to notice (it is not inside recv): sends for that identity must reach the connection that
+/// is connected under it now.
+fn reconnect_scenario(id_kind: u8, policy: u8) -> Verdict {
+    world::reset(world::WorldCfg { nested_env: true, yields: true, select: false, policy });
+    let id = announced(id_kind, 0).unwrap();
+    let a1 = e3::raw_conn("A1");
+    let a2 = e3::raw_conn("A2");
+    a1.send(&rc::handshake("DEALER", Some(&id)));
+    a1.send(&rc::encode_message(&[b"from-first".to_vec(), b"x".to_vec()]));
+    a1.eof();
+    a2.gate("first-received");
+    a2.send(&rc::handshake("DEALER", Some(&id)));
+    a2.send(&rc::encode_message(&[b"from-second".to_vec(), b"y".to_vec()]));
+    let sock = AnySocket::new(Ty::Router, None);
+    let be = sock.backend();
+    let be2 = be.clone();
+    world::spawn_app("attach1", async move {
+        let r = e3::attach_raw(be, a1).await;
+        world::log(format!("attach(first) -> {}", e3::ok_or_err(&r)));
+    });
+    world::spawn_app("attach2", async move {
+        let r = e3::attach_raw(be2, a2).await;
+        world::log(format!("attach(second) -> {}", e3::ok_or_err(&r)));
+        world::set_cond("second-attached");
+    });
+    let obs = std::rc::Rc::new(std::cell::RefCell::new(Vec::<String>::new()));
+    let obs2 = obs.clone();
+    let id2 = id.clone();
+    world::spawn_app("app", async move {
+        let mut sock = sock;
+        let r = world::until_idle(sock.recv()).await;
+        obs2.borrow_mut().push(format!("recv#1 -> {}", r.as_ref().map(e3::show_result).unwrap_or_else(|| "pending".into())));
+        // the application is busy elsewhere while the first peer goes away and the second one arrives
+        world::set_cond("first-received");
+        world::wait_cond("second-attached").await;
+        let r = world::until_idle(sock.recv()).await;
+        obs2.borrow_mut().push(format!("recv#2 -> {}", r.as_ref().map(e3::show_result).unwrap_or_else(|| "pending".into())));
+        let (b1, b2) = (world::tap_len(a1.from_lib), world::tap_len(a2.from_lib));
+        let s = sock.send(msg(&[id2.clone(), b"reply".to_vec(), b"z".to_vec()])).await;
+        obs2.borrow_mut().push(format!("send -> {} first+{} second+{}", e3::ok_or_err(&s), world::tap_len(a1.from_lib) - b1, world::tap_len(a2.from_lib) - b2));
+        world::wait_cond("never").await;
+        drop(sock);
+    });
+    let end = world::run(e3::HORIZON);
+    let mut v = Verdict::default();
+    v.truncated = end != world::RunEnd::Quiescent;
+    let what = format!("ROUTER: a peer with a {} identity leaves, a new connection announces the same identity while the application is not in recv", if id_kind == 0 { "1-byte" } else { "255-byte" });
+    for p in world::panics() {
+        v.violate("panic", format!("{}: {}", what, p));
+    }
+    if v.truncated {
+        v.violate("spin", format!("{}: no quiescence", what));
+    }
+    let o = obs.borrow().clone();
+    for l in &o {
+        world::log(l.clone());
+    }
+    let want1 = format!("recv#1 -> Ok{}", rc::show_frames(&[id.clone(), b"from-first".to_vec(), b"x".to_vec()]));
+    let want2 = format!("recv#2 -> Ok{}", rc::show_frames(&[id.clone(), b"from-second".to_vec(), b"y".to_vec()]));
+    if o.len() == 3 && world::panics().is_empty() && !v.truncated {
+        if o[0] != want1 || o[1] != want2 {
+            v.violate("reconnect/recv", format!("{}: {:?}", what, &o[..2]));
+        }
+        let reply_len = rc::encode_message(&[b"reply".to_vec(), b"z".to_vec()]).len();
+        if o[2] != format!("send -> Ok first+0 second+{}", reply_len) {
+            v.violate(
+                "reconnect/send-reaches-stale-connection",
+                format!("{}: the send addressed to that identity: {} (expected: Ok, {} bytes on the second connection, nothing on the first)", what, o[2], reply_len),
+            );
+        }
+    } else if world::panics().is_empty() && !v.truncated {
+        v.violate("reconnect/app-stuck", format!("{}: {:?}", what, o));
+    }
+    v.outcome_hash = rc::fnv(o.join("|").as_bytes());
+    e3::finish(v)
+}
+
 fn pj(p: &Params) -> Value {
     json!({"ids": p.ids, "msgs": p.msgs, "last_peer_leaves": p.last_peer_leaves, "policy": p.policy})
 }
@@ -199,6 +277,10 @@ pub fn run(tier: Tier, replay: Option<String>) -> i32 {
     if let Some(path) = replay {
         let v: Value = serde_json::from_str(&std::fs::read_to_string(&path).expect("read")).expect("json");
         return crate::replay::replay_e3(&v, |p| {
+            if p["scenario"] == "reconnect" {
+                let (k, pol) = (p["id_kind"].as_u64()? as u8, p["policy"].as_u64()? as u8);
+                return Some(std::sync::Arc::new(move || reconnect_scenario(k, pol)) as zvcore::explore::Scenario);
+            }
             let pr = pf(p)?;
             Some(std::sync::Arc::new(move || scenario(&pr)) as zvcore::explore::Scenario)
         });
@@ -213,9 +295,14 @@ pub fn run(tier: Tier, replay: Option<String>) -> i32 {
             for policy in 0..3u8 {
                 let pr = Params { ids: ids.clone(), msgs: 2, last_peer_leaves: leaves, policy };
                 let pr2 = pr.clone();
-                let bound = if ids.len() >= 3 { 2 } else { tier.pick(2, 3) };
-                jobs.push(e3::job(format!("C09/{:?}/{}/policy{}", ids, leaves, policy), pj(&pr), bound, tier.pick(150_000, 2_000_000), move || scenario(&pr2)));
+                let bound = if ids.len() >= 3 { tier.pick(2, 3) } else { tier.pick(3, 4) };
+                jobs.push(e3::job(format!("C09/{:?}/{}/policy{}", ids, leaves, policy), pj(&pr), bound, tier.pick(600_000, 8_000_000), move || scenario(&pr2)));
             }
+        }
+    }
+    for id_kind in 0..2u8 {
+        for policy in 0..3u8 {
+            jobs.push(e3::job(format!("C09/reconnect/id{}/policy{}", id_kind, policy), json!({"scenario":"reconnect","id_kind":id_kind,"policy":policy}), tier.pick(2, 3), tier.pick(300_000, 3_000_000), move || reconnect_scenario(id_kind, policy)));
         }
     }
     e3::run_jobs_into(&mut ck, jobs, false);
@@ -224,7 +311,7 @@ pub fn run(tier: Tier, replay: Option<String>) -> i32 {
     ck.cov("transitions", ex);
     ck.cov("traces_validated_against_impl", ex);
     ck.cov("exhaustive", ck.coverage.get("e3_scenarios_capped").and_then(|v| v.as_u64()) == Some(0));
-    ck.cov("explanation", "ROUTER socket with 1-3 raw peers whose identities are announced (1 byte / 255 bytes) or auto-assigned, each sending 2 multipart messages (one starting with an empty frame); every schedule within the deviation bound over attach order, delivery order, yield points and deliveries landing inside pipe reads, from 3 default policies. Oracle: the first frame of every recv result is the identity returned by that connection's attach (the announced one when present, else a unique 16-byte value) and the remaining frames are the reference decode of what that peer wrote, per peer in order; then a send to each identity must appear, minus its first frame, on exactly that peer's wire and on no other; unknown identities must fail with no wire growing; a peer that has closed must not cause bytes on any other wire. states = distinct observed outcomes; transitions = executions.");
+    ck.cov("explanation", "ROUTER socket with 1-3 raw peers whose identities are announced (1 byte / 255 bytes) or auto-assigned, each sending 2 multipart messages (one starting with an empty frame); every schedule within the deviation bound over attach order, delivery order, yield points and deliveries landing inside pipe reads, from 3 default policies. Oracle: the first frame of every recv result is the identity returned by that connection's attach (the announced one when present, else a unique 16-byte value) and the remaining frames are the reference decode of what that peer wrote, per peer in order; then a send to each identity must appear, minus its first frame, on exactly that peer's wire and on no other; unknown identities must fail with no wire growing; a peer that has closed must not cause bytes on any other wire. Reconnect family: a peer with an announced identity leaves and a new connection announces the same identity while the application is not inside recv: the send for that identity must reach the new connection and nothing the stale one. states = distinct observed outcomes; transitions = executions.");
     ck.assume("single-frame ROUTER sends are outside the statement and not issued");
     ck.conclude()
 }
